@@ -72,8 +72,8 @@ CLAIMED = {
    'Hostile family: twenty classes of junk frames built by an independent encoder are injected towards either endpoint, and interactions run whose application code raises at every entry point (handler methods, publisher subscribe/request/cancel, subscriber callbacks, failing futures, raising generators); a witness stream must still complete with all its payloads, a probe request must be served, both tasks stay alive, the connection is not closed, every run terminates under a watchdog.',
    CONN_NOTE, 'DESIGN 6/C12', 'conn'),
  'C14': ('model_checking',
-   'TLC trace validation of recorded executions of the real endpoints against RSocket.tla (+ design-level TLC model checking of the same monitors)',
-   'Lease monitor of RSocket.tla on recorded runs of a lease-honouring client against a real server with a scripted lease publisher under virtual time: no request before the first LEASE, at most the granted count per lease, none after the ttl, FIFO release, each request sent at most once, LEASE frames carry exactly the published count and ttl in ms.',
+   'TLC model checking of Lease.tla (requester-side leasing under a clock) with every transition of its state graphs replayed on a real lease-honouring RSocketClient under a virtual clock; TLC trace validation of recorded executions of the real endpoints against RSocket.tla',
+   'Lease.tla models DefinedLease.is_request_allowed, send_request, the bounded request queue and handle_lease, one action per critical section (Request, LeaseArrives incl. the release loop, Tick); TLC checks the C14 clauses over every interleaving of requests, LEASE frames and time (unbounded and bounded queue), and both complete state graphs (41,523 transitions) are replayed through the public request API, the real handle_lease coroutine and a patched clock, comparing send queue, request queue and refused calls after every step. Lease monitor of RSocket.tla on recorded runs of a lease-honouring client against a real server with a scripted lease publisher under virtual time: no request before the first LEASE, at most the granted count per lease, none after the ttl, FIFO release, each request sent at most once, LEASE frames carry exactly the published count and ttl in ms.',
    CONN_NOTE, 'DESIGN 6/C14', 'conn'),
  'C15': ('model_checking',
    'TLC trace validation of recorded executions of the real endpoints against RSocket.tla (+ design-level TLC model checking of the same monitors)',
